@@ -49,8 +49,7 @@ Check stop_starved_without_accept_check.
 
 (* tie: the functions this property's model describes by hand (not by translation) still have the pinned text; an
    edit to one of them breaks this obligation and sends the check searching for a failing input *)
-From VL Require Import ShapeFacts.
 From VLG Require Import ShapeGen.
 Theorem C15_modelled_code_is_the_pinned_text : shapes_for_C15 = true.
-Proof. exact shapes_C15_ok. Qed.
+Proof. vm_compute. reflexivity. Qed.
 Print Assumptions C15_modelled_code_is_the_pinned_text.
